@@ -3,10 +3,10 @@ package main
 func init() {
 	stubs := map[string]string{
 		"(github.com/tailscale/setec/client/setec.Client).Put": "verifStubClientPut",
-		"os.ReadFile":                        "verifStubReadInputFile",
-		"io.ReadAll":                         "verifStubReadAll",
-		"golang.org/x/term.IsTerminal":       "verifStubIsTerminal",
-		"(*os.File).Fd":                      "verifStubFd",
+		"os.ReadFile":                  "verifStubReadInputFile",
+		"io.ReadAll":                   "verifStubReadAll",
+		"golang.org/x/term.IsTerminal": "verifStubIsTerminal",
+		"(*os.File).Fd":                "verifStubFd",
 		"(*github.com/creachadair/command.Env).Context": "verifStubEnvContext",
 	}
 	p := findProp("C18")
